@@ -37,7 +37,7 @@ Step ==
      ELSE IF ev.op \in {"push", "repush"} THEN      \* after PushEnd: unreachable (pend is set)
         /\ FALSE
      ELSE
-        /\ CASE ev.op = "submit"  -> ESubmit(ev.t, ev.res)
+        /\ CASE ev.op = "submit"  -> (eres = "" /\ SubmitAny(ev.t, ev.res) /\ UNCHANGED <<insH, insB, todo, eres>>)
              [] ev.op = "mine"    -> (eres = "" /\ Mine(IF Range(ev.txs) \subseteq Packable /\ NoDupSeq(ev.txs) THEN ev.txs ELSE PrefixFits(GoodOrder(Packable))) /\ UNCHANGED <<insH, insB, todo, eres>>)
              [] ev.op = "tick"    -> Tick
              [] ev.op = "restart" -> ERestart
